@@ -3756,11 +3756,16 @@ def _generic_dep_namers(repo: T.Any, mod: Module) -> T.List[T.Tuple[Module, str,
                             and isinstance(inner.iter.func, ast.Attribute) and isinstance(inner.iter.func.value, ast.Name) and inner.iter.func.value.id == i
                             and not inner.iter.args and not inner.iter.keywords):
                         continue
+                    ginfo = L.FnInfo(gm, f'{gc.name}.{g.name}', g)
                     for c in ast.walk(inner):
-                        if isinstance(c, ast.Call) and call_name(c) == 'os.path.join' and len(c.args) == 2 and isinstance(c.args[1], ast.Name) \
-                                and c.args[1].id == inner.target.id and isinstance(c.args[0], ast.Call) and (call_name(c.args[0]) or '').startswith('self.') \
-                                and (call_name(c.args[0]) or '').count('.') == 1 and len(c.args[0].args) == 1 and isinstance(c.args[0].args[0], ast.Name) and c.args[0].args[0].id == i:
-                            out.append((gm, f'{gc.name}.{g.name}', g, ps.index(lp.iter.id), c, i, call_name(c.args[0])[5:], inner.iter.func.attr))  # type: ignore[index]
+                        if not (isinstance(c, ast.Call) and call_name(c) == 'os.path.join' and len(c.args) == 2 and isinstance(c.args[1], ast.Name)
+                                and c.args[1].id == inner.target.id):
+                            continue
+                        cn_ = ginfo.nodes_of(c)
+                        a0 = L.inline_locals(ginfo, c.args[0], cn_[0]) if cn_ and isinstance(c.args[0], ast.Name) else c.args[0]    # a hoisted `d = self.<dir>(i)`
+                        if isinstance(a0, ast.Call) and (call_name(a0) or '').startswith('self.') \
+                                and (call_name(a0) or '').count('.') == 1 and len(a0.args) == 1 and isinstance(a0.args[0], ast.Name) and a0.args[0].id == i:
+                            out.append((gm, f'{gc.name}.{g.name}', g, ps.index(lp.iter.id), c, i, call_name(a0)[5:], inner.iter.func.attr))  # type: ignore[index]
     return out
 
 
